@@ -600,6 +600,7 @@ def make_class(C: dict, sp: int = 0) -> type:
             kw['default'] = concretise(d['v'])
         elif d['k'] == 'fac':
             kw['default_factory'] = _factory(d['v'])
+            _pending_fac = kw['default_factory']
         if f['kw'] == 'T':
             kw['kw_only'] = True
         ins = [text(x) for x in f['ins']]
@@ -619,24 +620,36 @@ def make_class(C: dict, sp: int = 0) -> type:
                 ns[n] = kw['default']
         else:
             ns[n] = pane.field(**kw)
+            if 'default_factory' in kw:
+                _FACT_OBJS[id(ns[n])] = kw['default_factory']
+                KEEPALIVE.append(ns[n])
     ns['__annotations__'] = ann
     hook = C['hook']
-    if hook['k'] == 'rejectif':
-        cond = concretise_cond(hook['c'])
-        fname = text(hook['f'])
+    counter = [0]
+    cond = concretise_cond(hook['c']) if hook['k'] == 'rejectif' else None
+    fname = text(hook['f']) if hook['k'] == 'rejectif' else None
 
-        def __post_init__(self, _c=cond, _f=fname):
-            if _c.f(getattr(self, _f)):
-                raise ValueError('hook refuses ' + _f)
-        ns['__post_init__'] = __post_init__
+    def __post_init__(self, _c=cond, _f=fname, _n=counter):
+        _n[0] += 1                    # observable: how often the hook ran (C14, C16)
+        if _c is not None and _c.f(getattr(self, _f)):
+            raise ValueError('hook refuses ' + _f)
+    ns['__post_init__'] = __post_init__
     inf = C['inf']['$set'] if isinstance(C['inf'], dict) else C['inf']
     opts = {'in_format': tuple(sorted(inf)), 'out_format': C['outf']}
     if C['extra'] == 'T':
         opts['allow_extra'] = True
     cls = types.new_class(C['name'], (pane.PaneBase,), opts, lambda d: d.update(ns))
+    HOOK_COUNTERS[cls] = counter
+    FACTORIES[cls] = {text(f['n']): _FACT_OBJS[id(ns[text(f['n'])])] for f in C['fs']
+                      if f['d']['k'] == 'fac' and id(ns.get(text(f['n']))) in _FACT_OBJS}
     PANE_CLASSES[key] = cls
     KEEPALIVE.append(cls)
     return cls
+
+
+HOOK_COUNTERS: dict = {}
+FACTORIES: dict = {}
+_FACT_OBJS: dict = {}
 
 
 def _factory(v: dict):
